@@ -6,22 +6,22 @@ CLAIMED = {
     "C01": ("proof", "codec round-trip theorems for all messages/payloads; Codec model tied by regenerated tables + differential run"),
     "C02": ("proof", "decoder accepts exactly the well-formed lines (iff theorem) and rejects with the invalid-message error only"),
     "C03": ("proof", "generic theorem over the whole receive path: for every oracle, fault stream and state satisfying the invariant a listen step never raises a non-library exception and re-establishes the invariant; lifted to all histories"),
-    "C04": ("proof", "closed forms of every registry-changing handler (what changes, which error names which id, nothing changes on a missing node/child) + invariant over all histories; end-to-end refinement is tied by the correspondence"),
+    "C04": ("proof", "closed forms of every registry-changing handler (what changes, which error names which id, nothing changes on a missing node/child), registry footprint for every listen step and every history (no record other than the sender's and the id being handed out changes), invariant over all histories; the end-to-end spec fold is tied by the correspondence"),
     "C05": ("proof", "selection theorem for all dotted-numeric release strings, agreement of reported version and active protocol as part of the invariant over all histories, type gate"),
     "C06": ("proof", "closed forms of the version-query wrapper (generic in the wrapped handler) and of each reaction; a listen step never parks anything (generic theorem)"),
-    "C07": ("proof", "send and the wake step in closed form for every buffer content: parked until the wake, released once, only that node, last parked value"),
+    "C07": ("proof", "send and the wake step in closed form for every buffer content: parked until the wake, released once, only that node, last parked value; over whole histories a parked command stays parked through every operation that is not a wake signal of its node or a send for its key, and is written at the next fault-free wake"),
     "C08": ("proof", "release loop and wake step in closed form for every fault stream: failure reported, delivered prefix removed, the rest stays, nothing twice"),
     "C09": ("proof", "PARTIAL: for every schedule of the flush/send race (small-step system whose scheduler may place sends at every step boundary) no update is lost, every write was sent, nothing is written twice; assumed: asyncio atomicity between suspension points, write is the only suspension point in the flush"),
-    "C10": ("proof", "closed forms of the missing-node/child wrapper (generic in the wrapped handler), the request logic and the marker clearing; table facts on which handlers carry the wrapper"),
+    "C10": ("proof", "closed forms of the missing-node/child wrapper, the request logic and the marker clearing; for every listen step: no request or exactly one, only for a message of that node, only when none is outstanding, recorded iff the write succeeded; over whole histories no second request while one is outstanding; table facts on which handlers carry the wrapper"),
     "C11": ("proof", "allocation step theorem for every registry and fault stream; registered ids only grow over all histories"),
     "C12": ("proof", "trichotomy proved for every case but one; the remaining case (internal command, buffering allowed) proved refuted = known finding"),
     "C13": ("proof", "round-trip theorem for every well-formed registry (all attributes, children, values, arbitrary integers and strings), legacy-layout theorem; the marshmallow field semantics of the model are tied to the library by ~6000 differential cases per run; JSON text layer assumed"),
     "C14": ("proof", "PARTIAL: in the model the read error is the only failure (by construction); proved: what is accepted, atomicity of a failing load, empty file; that no other exception class escapes the real load is decided by the differential run"),
     "C15": ("proof", "the property is proved REFUTED for save-in-place (known finding), its exact extent is a theorem (old / empty registry / read error / new per crash point) and the property is proved for write-temp-then-rename; crash points are enumerated on the real save through an intercepting file layer"),
-    "C16": ("proof", "PARTIAL: for every schedule of the two-task transition system (main task and saver, any interleaving at suspension points) leaving the context ends with the saver finished, the file holding the final registry, one disconnect and the raised exception (never CancelledError); asyncio task semantics are encoded assumptions; cadence on a virtual clock"),
+    "C16": ("proof", "PARTIAL: for every schedule of the two-task transition system (main task and saver, any interleaving at suspension points, cancellation of the owning task, re-entry of the same object) leaving the context ends with the saver finished, the file holding the final registry, one disconnect and the raised exception (never the saver's CancelledError); every session has its saver; asyncio task semantics are encoded assumptions; cadence on a virtual clock"),
     "C17": ("proof", "PARTIAL: for every chunking and read timing the completed reads are the first reads of the complete stream (theorem about the readuntil model), lines in order, over-long / incomplete / undecodable as read errors, writes are the concatenated UTF-8 (strict UTF-8 round trip proved); StreamReader itself is third-party and validated against the model on every run"),
-    "C18": ("proof", "PARTIAL: topic/line mapping theorems for every prefix and payload (publish form, read back, echo decodes to the same message), subscriptions cover every command topic, FIFO and not-deaf theorems about the receive loop model; broker and aiomqtt replaced by a fake client"),
-    "C19": ("proof", "PARTIAL: table monotonicity and identical dispatch chains per version pair by complete computation on the generated tables, heartbeat difference as theorems; end-to-end equality of histories is decided by running two real gateways and the model"),
+    "C18": ("proof", "PARTIAL: topic/line mapping theorems for every prefix and payload (publish form incl. the keyword arguments that reach the broker client, read back, echo decodes to the same message), subscriptions cover every command topic, FIFO and not-deaf theorems about the receive loop model; broker and aiomqtt replaced by a fake client"),
+    "C19": ("proof", "simulation theorem over whole histories within a major line (two gateways equal but for reported version / active protocol give the same outcomes and writes operation by operation, for every oracle and fault stream; which pairs agree is computed on the generated tables; the exception 22 is necessary); PARTIAL across 1.x -> 2.x: table facts only, equality of histories decided by running two real gateways and the model"),
 }
 NOT_YET = {}
 
